@@ -24,7 +24,7 @@ ASSUMPTIONS = ["complete enumeration per parameterisation; parameter space itsel
 def plan(tier):
     if tier == "quick":
         return dict(shards=16, examples=160, time_budget_s=600, min_nontrivial=40, shrink_cap_s=120)
-    return dict(shards=16, examples=2400, time_budget_s=3400, min_nontrivial=600)
+    return dict(shards=16, examples=2400, time_budget_s=3400, min_nontrivial=240)
 
 
 def strategy(tier, shard):
